@@ -148,8 +148,27 @@ package tcplistener
 //@   ensures[C07:connection-is-released-unless-closed-by-the-stop-request] ncalls("channels.SignalAwaitable.Signal") == old(ncalls("channels.SignalAwaitable.Signal")) + 1 || lastpeek
 //@   before tcplistener.newMultiLineReader: assert[reader-is-built-with-valid-limits] 0 < arg3 && arg3 <= 1073741824 && arg2 <= 4294967296
 //@   loop 1: step[the-deadline-that-caused-a-flush-is-remembered] readErr == nil && ncalls("tcplistener.multiLineReader.Flush") > prev(ncalls("tcplistener.multiLineReader.Flush")) ==> instant(prevDeadline) == instant(connReader.readDeadline)
+//@   ensures[C07:what-is-buffered-when-the-connection-ends-is-still-delivered-however-it-ends] ncalls("tcplistener.multiLineReader.FlushAll") == old(ncalls("tcplistener.multiLineReader.FlushAll")) + 1
 //@   ensures[final-flush-all-then-sink-flush] ncalls("tcplistener.multiLineReader.FlushAll") == old(ncalls("tcplistener.multiLineReader.FlushAll")) + 1 && lastsinkflush > old(fevent)
 //@   loop 1: invariant ncalls("tcplistener.multiLineReader.FlushAll") == old(ncalls("tcplistener.multiLineReader.FlushAll")) && fevent >= old(fevent)
 //@   loop 1: step[a-flush-while-the-connection-lives-keeps-the-partial-line] ncalls("tcplistener.multiLineReader.FlushAll") == prev(ncalls("tcplistener.multiLineReader.FlushAll"))
 //@   loop 1: step[reader-flush-is-followed-by-the-sink-flush] ncalls("tcplistener.multiLineReader.Flush") - prev(ncalls("tcplistener.multiLineReader.Flush")) == ncalls("base.MessageReceiverSink.Flush") - prev(ncalls("base.MessageReceiverSink.Flush"))
 //@   loop 1: step[one-read-per-round] ncalls("tcplistener.multiLineReader.Read") == prev(ncalls("tcplistener.multiLineReader.Read")) + 1
+
+// the accept loop: every connection task is started with the connection's own descriptor as its client number, and only
+// for numbers the sink tables can hold. Functional-only unit.
+//@ func (listener *tcpLineListener) run()
+//@   property C17 C07
+//@   flag nosafety noinfer
+//@   requires listener != nil
+//@   modifies everything
+//@   before tcplistener.tcpLineListener.runConnection: assert[client-number-is-the-connection's-own-descriptor-and-fits-the-tables] arg3 == util.lastconnfd && arg2 == util.lastfdconn && 0 <= arg3 && arg3 < base.MaxClientNumber
+
+// the listener applies the record-start test it was given, unchanged, to whatever the line reader asks about (a line, or at a
+// flush / overflow the whole buffered record): nothing between the protocol's test and the reader decides about records (C08)
+//@ func NewTCPLineListener(parentLogger logger.Logger, address string, testRecord func(ln []byte) bool, receiver base.MultiSinkMessageReceiver, stopRequest channels.Awaitable) (base.LogListener, string, error)
+//@   property C08
+//@   flag nosafety noinfer
+//@   modifies everything
+//@   ensures[the-reader-is-given-the-protocol's-own-record-start-test] result.2 == nil ==> typeis(result.0, *tcpLineListener) && as(result.0, *tcpLineListener).testRecord === testRecord && as(result.0, *tcpLineListener).receiver == receiver
+
